@@ -51,7 +51,7 @@ func (c *controller) gate(kind string) {
 		return // free-running code outside a controlled run
 	}
 	switch kind {
-	case "Atomic:pre":
+	case "Atomic:pre", "AtomicW:post":
 		if t.held > 0 {
 			return // never park a thread inside a critical section: that would be the instrumentation's deadlock, not the code's
 		}
@@ -314,7 +314,7 @@ func (e *c07env) runSchedule(t *tracer, sc scenario, prefix []int, schedID int, 
 			t.emit(map[string]any{"ev": "Blocked", "t": th.id, "threads": all})
 			return res
 		}
-		if kind == "Unlock:post" && ti.kind != "request" {
+		if (kind == "Unlock:post" || kind == "AtomicW:post") && ti.kind != "request" {
 			// a write section of this writer has just completed
 			t.emit(map[string]any{"ev": "Commit", "t": th.id, "op": ti.op.String()})
 			committed[th.id] = true
@@ -326,14 +326,14 @@ func (e *c07env) runSchedule(t *tracer, sc scenario, prefix []int, schedID int, 
 			return res
 		}
 		if kind == "done" {
-			if ti.kind == "reconf" || ti.kind == "setdebug" {
-				if !committed[th.id] && !ti.err {
-					// no instrumented write section was seen: the call itself is the commit point
-					t.emit(map[string]any{"ev": "Commit", "t": th.id, "op": ti.op.String()})
-				}
+			// a writer call during which NO write (write section or atomic store) was seen changed nothing: that is right exactly
+			// when the call is a no-op in some state that was current while it ran (TraceMiddleware decides)
+			nowrite := (ti.kind == "reconf" || ti.kind == "setdebug") && !committed[th.id] && !ti.err && mutexGates
+			if (ti.kind == "reconf" || ti.kind == "setdebug") && !committed[th.id] && !ti.err && !mutexGates {
+				t.emit(map[string]any{"ev": "Commit", "t": th.id, "op": ti.op.String()}) // uninstrumented build: the call is the commit point
 			}
 			t.emit(map[string]any{"ev": "End", "t": th.id, "kind": ti.kind, "req": ti.req, "op": ti.op.String(), "fp": ti.result, "err": ti.err,
-				"gates": strings.Join(th.gates, ",")})
+				"gates": strings.Join(th.gates, ","), "nowrite": nowrite})
 		}
 		step++
 	}
@@ -357,7 +357,7 @@ func (e *c07env) runSchedule(t *tracer, sc scenario, prefix []int, schedID int, 
 			if op.Kind != "config" && !errd {
 				t.emit(map[string]any{"ev": "Commit", "t": id, "op": op.String()})
 			}
-			t.emit(map[string]any{"ev": "End", "t": id, "kind": op.Kind, "req": 0, "op": op.String(), "fp": fp, "err": errd, "gates": ""})
+			t.emit(map[string]any{"ev": "End", "t": id, "kind": op.Kind, "req": 0, "op": op.String(), "fp": fp, "err": errd, "gates": "", "nowrite": false})
 		}
 		for i, op := range sc.Post {
 			emitOp(fmt.Sprintf("p%d", i), op)
@@ -368,7 +368,7 @@ func (e *c07env) runSchedule(t *tracer, sc scenario, prefix []int, schedID int, 
 				id := fmt.Sprintf("q%d", k)
 				t.emit(map[string]any{"ev": "Begin", "t": id, "kind": "request", "req": k, "op": "config"})
 				sv := serve(m, newReq(rs.Method, cloneHeader(rs.H)), nil)
-				t.emit(map[string]any{"ev": "End", "t": id, "kind": "request", "req": k, "op": "config", "fp": respFP(sv.w, sv.invoked), "err": false, "gates": ""})
+				t.emit(map[string]any{"ev": "End", "t": id, "kind": "request", "req": k, "op": "config", "fp": respFP(sv.w, sv.invoked), "err": false, "gates": "", "nowrite": false})
 			}
 		}
 	}
